@@ -120,7 +120,8 @@ Fixpoint fill_loop (i : nat) (buf : bytes) (c : conn) : bytes * rerr * conn :=
   end.
 
 Definition fill (b : brd) : brd :=
-  let '(buf, e, c) := fill_loop MAX_EMPTY (b_buf b) (b_c b) in mkBr buf e c.
+  let '(buf, e, c) := fill_loop MAX_EMPTY (b_buf b) (b_c b) in
+  mkBr buf (match e with ENone => b_err b | _ => e end) c.      (* b.err is only ever overwritten by an error *)
 
 Fixpoint find_idx (x : N) (l : bytes) : option nat :=
   match l with
